@@ -66,9 +66,16 @@ func syncOpsOf(fn *ssa.Function) []syncOp {
 					out = append(out, syncOp{kind: "wake", key: k, ins: ins})
 				}
 			case *ssa.Select:
+				// a select that also serves a data channel is not a wait for the signal alone
+				mixed := false
+				for _, st := range t.States {
+					if signalKey(st.Chan) == "" {
+						mixed = true // a data channel is served (received from or sent to) by the same select
+					}
+				}
 				for _, st := range t.States {
 					k := signalKey(st.Chan)
-					if k == "" {
+					if k == "" || (mixed && st.Dir == types.RecvOnly) {
 						continue
 					}
 					if st.Dir == types.SendOnly {
